@@ -262,6 +262,22 @@ static std::string RunVar(const std::vector<std::string>& ops) {
       case 'a': if (live(i) && live(k)) { w.Open(); *p->at(i) = *p->at(k); w.Close(); } else done = false; break;
       case 'm': if (live(i) && live(k)) { w.Open(); *p->at(i) = std::move(*p->at(k)); w.Close(); } else done = false; break;
       case 'B': if (live(i)) { w.Open(); p->at(i)->Become(k); w.Close(); } else done = false; break;
+      // the element's move constructor throws while the Variant is move-constructed (Y) / move-assigned (y): the
+      // exception must come out (no std::terminate), nothing is constructed that is not destroyed later
+      case 'Y':
+        if (dead(i) && live(k)) {
+          w.Open(); g_throw = true;
+          try { new (p->mem[i]) Var(std::move(*p->at(k))); p->alive[i] = true; } catch (const Boom&) {}
+          g_throw = false; w.Close();
+        } else done = false;
+        break;
+      case 'y':
+        if (live(i) && live(k)) {
+          w.Open(); g_throw = true;
+          try { *p->at(i) = std::move(*p->at(k)); } catch (const Boom&) {}
+          g_throw = false; w.Close();
+        } else done = false;
+        break;
       default: done = false;
     }
     if (!out.empty()) out += " ";
@@ -743,6 +759,28 @@ static std::string Cmp() {
   return "cmp=" + out;
 }
 
+// the same operators when an operand is a table Entry (a class derived from Optional): Optional-Entry, Entry-Optional,
+// Entry-Entry, Entry-value, value-Entry
+static std::string CmpEntry() {
+  std::string out;
+  for (int a = -1; a <= 2; a++)
+    for (int b = -1; b <= 2; b++) {
+      nop::Optional<int> oa, ob; nop::Entry<int, 5> ea, eb;
+      if (a >= 0) { oa = a; ea = a; }
+      if (b >= 0) { ob = b; eb = b; }
+      std::string bits;
+      auto put = [&](bool x) { bits.push_back(x ? '1' : '0'); };
+      put(oa == eb); put(oa != eb); put(oa < eb); put(oa > eb); put(oa <= eb); put(oa >= eb);
+      put(ea == ob); put(ea != ob); put(ea < ob); put(ea > ob); put(ea <= ob); put(ea >= ob);
+      put(ea == eb); put(ea != eb); put(ea < eb); put(ea > eb); put(ea <= eb); put(ea >= eb);
+      if (b >= 0) { put(ea == b); put(ea != b); put(ea < b); put(ea > b); put(ea <= b); put(ea >= b); } else bits += "------";
+      if (a >= 0) { put(a == eb); put(a != eb); put(a < eb); put(a > eb); put(a <= eb); put(a >= eb); } else bits += "------";
+      if (!out.empty()) out += ",";
+      out += std::to_string(a) + "/" + std::to_string(b) + "=" + bits;
+    }
+  return "cmpe=" + out;
+}
+
 // ------------------------------------------------------------ error messages --
 static std::string Messages() {
   std::string out;
@@ -776,6 +814,7 @@ int main() {
       else if (tok[0] == "udh") out = RunUdh(ops);
       else if (tok[0] == "ufhnamed") out = UfhNamed();
       else if (tok[0] == "cmp") out = Cmp();
+      else if (tok[0] == "cmpe") out = CmpEntry();
       else if (tok[0] == "msgs") out = Messages();
       else out = "HARNESS-ERROR unknown op";
     } catch (const std::exception& e) { out = std::string("EXCEPTION ") + e.what(); }
